@@ -73,6 +73,8 @@ structure TS where
   lastW : List WOp := []
   lastWF : List WOp := []
   faultMode : Bool := false
+  looseMode : Bool := false                   -- background work overlaps later calls: structural correspondence suspended
+  lastOver : List Bytes := []
   nWerr : Nat := 0
   nFailedBatches : Nat := 0
   lastBegin : Nat := 0
@@ -81,6 +83,8 @@ structure TS where
   lastCrash : Option (Nat × Nat × Run) := none
   nCrash : Nat := 0
   nCrash2 : Nat := 0
+  nCrashN : Nat := 0
+  pendingNested : List (Nat × Nat × String × Run) := []
   nCrashNontrivial : Nat := 0
   nJ : Nat := 0
   io : IoAbs.AbsState := {}
@@ -88,7 +92,7 @@ structure TS where
 def TS.problem (t : TS) (kind : String) (msg : String) : TS :=
   -- after an injected I/O fault the engine legitimately stops flushing/compacting and refuses writes: the structural
   -- correspondence (stepOk / Inv / layout / memtable dumps) is suspended, the property oracles are not
-  if t.faultMode && kind.startsWith "MISMATCH" && !(kind.startsWith "MISMATCH[other]") then t
+  if (t.faultMode || t.looseMode) && kind.startsWith "MISMATCH" && !(kind.startsWith "MISMATCH[other]" && !t.looseMode) && !(kind.startsWith "MISMATCH[conforms") then t
   else { t with problems := t.problems ++ [s!"{kind} line={t.lineNo} {msg}"] }
 
 def parseEntry (s : String) : Option Entry :=
@@ -318,7 +322,14 @@ def crashCheck (t : TS) (n v : Nat) (rc : String) (recLog : Int) (run : Run) : T
   let bad := keys.filter (fun k => lastView t.cmp run k != lastView t.cmp sEntries k)
   let t := if bad.isEmpty then t
            else t.problem "VIOLATION[crashview]" s!"crash image n={n} variant={v}: for key {hexOfBytes (bad.headD [])} the recovered database answers {lastView t.cmp run (bad.headD [])} but the surviving writes dictate {lastView t.cmp sEntries (bad.headD [])}"
-  { t with lastCrash := some (n, v, run), nCrashNontrivial := t.nCrashNontrivial + (if run.isEmpty then 0 else 1) }
+  let mine := t.pendingNested.filter (fun p => p.1 == n && p.2.1 == v)
+  let t := mine.foldl (fun t (_, _, where_, r2) =>
+    let inv2 := r2.filter (fun e => !hEntries.contains e)
+    let t := if inv2.isEmpty then t else t.problem "VIOLATION[crashnested]" s!"second crash (recovery step/variant {where_}) inside the recovery of crash image n={n} variant={v}: entries that were never written: [{showRunBrief inv2}]"
+    let bad2 := keys.filter (fun k => lastView t.cmp r2 k != lastView t.cmp run k)
+    if bad2.isEmpty then t
+    else t.problem "VIOLATION[crashnested]" s!"second crash (recovery step/variant {where_}) inside the recovery of crash image n={n} variant={v}: key {hexOfBytes (bad2.headD [])} reads {lastView t.cmp r2 (bad2.headD [])}, the undisturbed recovery of the same image gives {lastView t.cmp run (bad2.headD [])} (something more was lost)") t
+  { t with lastCrash := some (n, v, run), pendingNested := [], nCrashNontrivial := t.nCrashNontrivial + (if run.isEmpty then 0 else 1) }
 
 def followKey (k : Nat) : Bytes := ("zz-follow-" ++ toString k).toUTF8.toList
 
@@ -333,8 +344,11 @@ def crash2Check (t : TS) (n v : Nat) (rc wrc : String) (seq0 : Nat) (run : Run) 
     let t := if seq0 > maxOld then t else t.problem "VIOLATION[crashfollow]" s!"after recovering crash image n={n} variant={v} new writes got sequence {seq0}, not above the recovered maximum {maxOld}"
     let badFollow := (List.range 3).filter fun k => lastView t.cmp run (followKey k) != some s!"{hexOfBytes (s!"f{n}-{v}-{k}").toUTF8.toList}"
     let t := if badFollow.isEmpty then t else t.problem "VIOLATION[crashfollow]" s!"crash image n={n} variant={v}: follow-up writes {badFollow} made after recovery are not there after the next reopen"
+    let badOver := (t.lastOver.zipIdx).filter fun (k, j) => lastView t.cmp run k != some s!"{hexOfBytes (s!"o{n}-{v}-{j}").toUTF8.toList}"
+    let t := if badOver.isEmpty then t
+             else t.problem "VIOLATION[crashfollow]" s!"crash image n={n} variant={v}: key {hexOfBytes ((badOver.headD ([], 0)).1)} was overwritten after recovery, but after the next reopen it reads {lastView t.cmp run (badOver.headD ([], 0)).1} (recovered data took precedence over a later write)"
     let keys := userKeys t.cmp r1
-    let bad := keys.filter (fun k => !(k.take 10 == "zz-follow-".toUTF8.toList) && lastView t.cmp run k != lastView t.cmp r1 k)
+    let bad := keys.filter (fun k => !(k.take 10 == "zz-follow-".toUTF8.toList) && !t.lastOver.contains k && lastView t.cmp run k != lastView t.cmp r1 k)
     if bad.isEmpty then t else t.problem "VIOLATION[crashfollow]" s!"crash image n={n} variant={v}: key {hexOfBytes (bad.headD [])} changed across the second reopen"
   | none => t.problem "MISMATCH[other]" "crash2 without crash"
 
@@ -505,6 +519,7 @@ def handleLine (t : TS) (line : String) : TS :=
     let t := { t with nLifecycle := t.nLifecycle + 1, st := ({} : TS).st, history := [], files := [], batches := [], everOpened := false, isOpen := false, logNum := 0 }
     if rc == "0" then { t with destroyed := true } else t.problem "VIOLATION[lifecycle]" s!"destroy failed rc={rc}"
   | ["faultmode"] => { t with faultMode := true }
+  | ["loosemode", x] => { t with looseMode := x == "1" }
   | ["seq0", n] =>
     match n.toNat? with
     | some s0 =>
@@ -621,8 +636,30 @@ def handleLine (t : TS) (line : String) : TS :=
   | ["crash", n, v, rc] => let _ := (n, v); { (t.problem "VIOLATION[crashopen]" s!"reopening crash image n={n} variant={v} failed: {rc}") with nCrash := t.nCrash + 1 }
   | ["crash", n, v, rc, reclog, _lastseq, entries] =>
     match n.toNat?, v.toNat?, (reclog.drop 7).toString.toInt?, parseEntries entries with
-    | some n, some v, some rl, some run => crashCheck t n v rc rl run
+    | some n, some v, some rl, some run => { (crashCheck t n v rc rl run) with lastOver := [] }
     | _, _, _, _ => t.problem "MISMATCH[other]" s!"unparsable crash line {n} {v}"
+  | ["crash", n, v, rc, reclog, _lastseq, entries, over] =>
+    match n.toNat?, v.toNat?, (reclog.drop 7).toString.toInt?, parseEntries entries with
+    | some n, some v, some rl, some run =>
+      let ov := if over == "over=." then [] else ((over.drop 5).toString.splitOn ",").filterMap parseBytes
+      { (crashCheck t n v rc rl run) with lastOver := ov }
+    | _, _, _, _ => t.problem "MISMATCH[other]" s!"unparsable crash line {n} {v}"
+  | ["recnums", n, v, have_, created] =>
+    let nums := fun (x : String) => let y := (x.splitOn "=").getD 1 "."; if y == "." then [] else (y.splitOn ",").filterMap (·.toNat?)
+    let hv := nums have_
+    let cr := nums created
+    let bad := cr.filter (fun c => hv.any (fun h => h ≥ c))
+    if bad.isEmpty then t
+    else t.problem "VIOLATION[recoverynumbers]" s!"recovering crash image n={n} variant={v}: a new log {bad} was created although logs {hv} were on disk -- the file-number counter did not move past what recovery found (an older log would be replayed after newer data, or truncated before its contents are committed)"
+  | ["crashn", n, v, m, v2, rc] => let _ := (m, v2); { (t.problem "VIOLATION[crashnested]" s!"reopening after a second crash inside the recovery of crash image n={n} variant={v} failed: {rc}") with nCrashN := t.nCrashN + 1 }
+  | ["crashn", n, v, m, v2, rc, _reclog, _lastseq, entries] =>
+    -- a second crash, inside the recovery of crash image (n, v): judged when the `crash n v` line (what the undisturbed
+    -- recovery of that image yields) arrives -- the nested recovery must lose nothing further
+    match n.toNat?, v.toNat?, parseEntries entries with
+    | some n', some v', some run =>
+      if rc != "rc=0" then { (t.problem "VIOLATION[crashnested]" s!"reopening after a second crash (recovery step {m}, variant {v2}) inside the recovery of crash image n={n} variant={v} failed: {rc}") with nCrashN := t.nCrashN + 1 }
+      else { t with pendingNested := t.pendingNested ++ [(n', v', s!"{m}/{v2}", run)], nCrashN := t.nCrashN + 1 }
+    | _, _, _ => t.problem "MISMATCH[other]" s!"unparsable crashn line {n} {v}"
   | ["crash2", n, v, rc, wrc, seq0, _lastseq, entries] =>
     match n.toNat?, v.toNat?, (seq0.drop 5).toString.toNat?, parseEntries entries with
     | some n, some v, some s0, some run => crash2Check t n v rc wrc s0 run
@@ -644,4 +681,4 @@ def main : IO Unit := do
     IO.println p
   for k in t.known do
     IO.println s!"KNOWN {k}"
-  IO.println s!"done lines={t.lineNo} writes={t.nWrites} gets={t.nGets} iterops={t.nIter} flushes={t.nFlush} compactions={t.nCompact} trivialmoves={t.nTrivial} recoveries={t.nRecover} invchecks={t.nInv} vers={t.nVer} ls={t.nLs} lifecycle={t.nLifecycle} corruptions={t.nCorrupt} corruptreads={t.nCorruptReads} corrupterrors={t.nCorruptErrors} repairs={t.nRepairs} liveiterops={t.nLongIterOps} crashes={t.nCrash} crashes2={t.nCrash2} crashnonempty={t.nCrashNontrivial} jevents={t.nJ} ioevents={t.io.nEvents} edits={t.io.nEdits} conforms={if t.io.mon.ok then 1 else 0} conformsstrict={if t.io.mon.ok && t.io.mon.okDel then 1 else 0} werr={t.nWerr} failedbatches={t.nFailedBatches} maxfiles={t.maxFiles} levelsused={t.levelsUsed} problems={t.problems.length + t.io.problems.length}"
+  IO.println s!"done lines={t.lineNo} writes={t.nWrites} gets={t.nGets} iterops={t.nIter} flushes={t.nFlush} compactions={t.nCompact} trivialmoves={t.nTrivial} recoveries={t.nRecover} invchecks={t.nInv} vers={t.nVer} ls={t.nLs} lifecycle={t.nLifecycle} corruptions={t.nCorrupt} corruptreads={t.nCorruptReads} corrupterrors={t.nCorruptErrors} repairs={t.nRepairs} liveiterops={t.nLongIterOps} crashes={t.nCrash} crashes2={t.nCrash2} crashesnested={t.nCrashN} crashnonempty={t.nCrashNontrivial} jevents={t.nJ} ioevents={t.io.nEvents} edits={t.io.nEdits} conforms={if t.io.mon.ok then 1 else 0} conformsstrict={if t.io.mon.ok && t.io.mon.okDel then 1 else 0} werr={t.nWerr} failedbatches={t.nFailedBatches} maxfiles={t.maxFiles} levelsused={t.levelsUsed} problems={t.problems.length + t.io.problems.length}"
